@@ -60,7 +60,7 @@ impl Gen {
     pub fn draw_cfg(rng: &mut Rng, family: &str) -> GenCfg {
         let n_peers = match family {
             "death3" | "three" => 3 + rng.below(2) as usize,
-            "timesync" | "lossack" => 2,
+            "timesync" | "lossack" | "death" | "disc" | "specack" | "specdeath" | "idle" | "glitch" | "forge" => 2,
             _ => *rng.pick(&[2usize, 2, 2, 3, 3, 4]),
         };
         let players_per_peer: Vec<usize> = (0..n_peers).map(|_| if rng.chance(1, 4) { 2 } else { 1 }).collect();
@@ -71,10 +71,12 @@ impl Gen {
         };
         let n_spec = match family {
             "spec" => 1 + rng.below(2) as usize,
+            "specack" | "specdeath" => 1,
             "mix" | "events" | "death" | "delay" => if rng.chance(1, 4) { 1 } else { 0 },
             _ => 0,
         };
         let long = family == "long" || family == "events";
+        let longish = family == "specdeath";
         let mut cfg = GenCfg {
             family: family.to_owned(),
             n_peers,
@@ -88,7 +90,7 @@ impl Gen {
             fps: *rng.pick(&[30usize, 60, 60, 60, 120]),
             dt: *rng.pick(&[300u64, 500, 1000, 2000]),
             dn: *rng.pick(&[100u64, 200, 500]),
-            duration_ticks: if long { 1500 + rng.below(1500) } else { 60 + rng.below(240) },
+            duration_ticks: if long { 1500 + rng.below(1500) } else if longish { 450 + rng.below(200) } else { 60 + rng.below(240) },
             p_deliver: *rng.pick(&[100u64, 100, 90, 70, 50, 30]),
             p_drop: *rng.pick(&[0u64, 0, 0, 10, 50, 150, 300]),
             p_dup: *rng.pick(&[0u64, 0, 0, 20, 100]),
@@ -98,6 +100,11 @@ impl Gen {
             mfb: *rng.pick(&[1usize, 2, 5, 10, 10, 30, 59]),
             cs: *rng.pick(&[1usize, 1, 2, 5, 60, 200]),
         };
+        // only the families about faults and drops play with short timeouts; everywhere else an
+        // accidental timeout would just move the scenario into another property's space
+        if !matches!(family, "loss" | "lossack" | "death" | "death3" | "disc" | "three") {
+            cfg.dt = *rng.pick(&[2000u64, 3000]);
+        }
         if cfg.dn >= cfg.dt {
             cfg.dn = cfg.dt / 2;
         }
@@ -119,7 +126,41 @@ impl Gen {
                     }
                 }
             }
+            "idle" => {
+                cfg.dt = 2000;
+                cfg.dn = 500;
+                cfg.p_deliver = 100;
+                cfg.p_drop = 0;
+                cfg.p_dup = 0;
+                cfg.p_skip = 0;
+                cfg.step_us = *rng.pick(&[5_000u64, 20_000, 50_000, 100_000]);
+                cfg.duration_ticks = 400;
+            }
+            "specack" => {
+                cfg.p_drop = 0;
+                cfg.p_dup = 0;
+                cfg.p_skip = 0;
+                cfg.p_deliver = 100;
+                cfg.dt = 2000;
+                // acknowledgements from the spectator (sid 3) to its host (sid 1) are lost for a while
+                let from = 400_000 + rng.below(600_000);
+                let len = 50_000 + rng.below(1_200_000);
+                cfg.outages.push((3, 1, from, from + len));
+            }
+            "glitch" => {
+                cfg.dd = 1 + rng.below(12) as u32;
+                cfg.sparse = false;
+                if cfg.mp == 0 { cfg.mp = 8; }
+                cfg.duration_ticks = 300 + rng.below(200);
+            }
             "clean" | "timesync" => {
+                if family == "timesync" {
+                    cfg.mp = 12;
+                    cfg.delay = 0;
+                    cfg.dd = 0;
+                    cfg.duration_ticks = 400;
+                    cfg.step_us = 2000;
+                }
                 cfg.p_deliver = 100;
                 cfg.p_drop = 0;
                 cfg.p_dup = 0;
@@ -217,6 +258,26 @@ impl Gen {
                 ticks: 0,
             });
         }
+        if cfg.family == "timesync" {
+            let k = self.rng.below(8);
+            let base = 1_000_000 / cfg.fps as u64;
+            for p in self.peers.iter_mut() {
+                p.period_us = base;
+                p.next_tick = 0;
+                p.drain_events = true;
+            }
+            self.peers[1].next_tick = k * base;
+        }
+        if cfg.family == "glitch" {
+            let sid = 1 + self.rng.below(2);
+            let f = 20 + self.rng.below(150);
+            // k = 0: every execution of frame f on that session is perturbed (a lasting divergence)
+            self.emit(format!("glitch {sid} {f} 0"));
+        }
+        if cfg.family == "specdeath" {
+            let idx = self.peers.len() - 1;
+            self.peers[idx].die_at = Some(300_000 + self.rng.below(1_000_000));
+        }
         if cfg.family == "death" || cfg.family == "death3" {
             let victim = self.rng.below(cfg.n_peers as u64) as usize;
             self.peers[victim].die_at = Some(400_000 + self.rng.below(2_500_000));
@@ -301,6 +362,38 @@ impl Gen {
                     self.emit(format!("setdelay {sid} {h} {d2}"));
                 }
             }
+            "disc" if !self.peers[i].is_spec && self.rng.chance(1, 120) => {
+                let np: usize = self.cfg.players_per_peer.iter().sum();
+                let h = self.rng.below(np as u64) as usize;
+                if !self.peers[i].handles.contains(&h) {
+                    self.emit(format!("disc {sid} {h}"));
+                }
+            }
+            "forge" if self.rng.chance(1, 6) => {
+                let links = self.w.links();
+                let cands: Vec<(usize, usize, usize)> = links.into_iter().filter(|l| l.2 > 0).collect();
+                if !cands.is_empty() {
+                    let (src, dst, n) = *self.rng.pick(&cands);
+                    let k = self.rng.below(n as u64);
+                    let nh = self.peers.iter().find(|p| p.sid == src).map_or(1, |p| p.handles.len().max(1));
+                    let m = match self.rng.below(9) {
+                        0 => "magic".to_owned(),
+                        1 => "addr".to_owned(),
+                        2 => "status-".to_owned(),
+                        3 => "status+".to_owned(),
+                        4 => "startneg".to_owned(),
+                        5 => {
+                            let len = self.rng.below(6) as usize;
+                            let bytes: Vec<u8> = (0..len).map(|_| *self.rng.pick(&[0x80u8, 0xFF, 0xFD, 0x01, 0x03, 0x0F, 0x7F, 0x00, 0x08])).collect();
+                            format!("payload {}", crate::to_hex(&bytes))
+                        }
+                        6 => format!("size {} {}", 2 * nh, 1 + self.rng.below(3)),
+                        7 => format!("size 0 {}", 1 + self.rng.below(3)),
+                        _ => format!("size {} {}", 2 * nh + 1, 1 + self.rng.below(2)),
+                    };
+                    self.emit(format!("forge {src} {dst} {k} {m}"));
+                }
+            }
             "misuse" if self.rng.chance(1, 10) => {
                 let np: usize = self.cfg.players_per_peer.iter().sum();
                 let h = self.rng.below(np as u64 + 3) as usize;
@@ -323,7 +416,39 @@ impl Gen {
         }
     }
 
+    /// SyncTest families: one session, no network.
+    fn run_sync(&mut self) {
+        let np = 1 + self.rng.below(4) as usize;
+        let mp = 1 + self.rng.below(12) as usize;
+        // mostly valid check distances, sometimes invalid ones (the builder must reject them)
+        let cd = if self.rng.chance(1, 8) { mp + self.rng.below(3) as usize } else { self.rng.below(mp as u64) as usize };
+        let delay = *self.rng.pick(&[0usize, 0, 1, 2, 3, 5]);
+        let pred = if self.rng.chance(1, 3) { 'D' } else { 'R' };
+        self.emit(format!("new sync 1 np={np} mp={mp} cd={cd} delay={delay} pred={pred}"));
+        if self.cfg.family == "syncglitch" {
+            let f = 3 + self.rng.below(60);
+            // the k-th execution (k >= 2: a re-simulation) of frame f yields another state than the
+            // first one did. (A deviation of the first execution only is invisible to any observer:
+            // its result is discarded by the very next rollback before it is ever saved.)
+            let k = 2 + self.rng.below(2);
+            self.emit(format!("glitch 1 {f} {k}"));
+        }
+        let ticks = if self.rng.chance(1, 10) { 600 } else { 40 + self.rng.below(160) };
+        for t in 0..ticks {
+            let vals: Vec<String> = (0..np).map(|k| match self.rng.below(3) { 0 => (t % 5).to_string(), 1 => (k + 1).to_string(), _ => self.rng.below(256).to_string() }).collect();
+            if self.cfg.family == "sync" && self.rng.chance(1, 50) {
+                // a misuse in between: advancing with an input missing
+                self.emit("adv 1".to_owned());
+            }
+            self.emit(format!("tick 1 {}", vals.join(",")));
+        }
+    }
+
     pub fn run(&mut self) {
+        if self.cfg.family == "sync" || self.cfg.family == "syncglitch" {
+            self.run_sync();
+            return;
+        }
         self.setup();
         let total_us = self.cfg.duration_ticks * (1_000_000 / self.cfg.fps as u64);
         let end = self.w.now_us + total_us;
@@ -362,7 +487,9 @@ impl Gen {
                 }
                 let sid = self.peers[i].sid;
                 self.extra_ops(i);
-                if self.peers[i].is_spec {
+                if self.cfg.family == "idle" {
+                    self.emit(format!("poll {sid}"));
+                } else if self.peers[i].is_spec {
                     self.emit(format!("adv {sid}"));
                 } else {
                     let n = self.peers[i].handles.len();
@@ -376,6 +503,41 @@ impl Gen {
                 }
                 if self.peers[i].drain_events && self.rng.chance(1, 2) {
                     self.emit(format!("events {sid}"));
+                }
+            }
+        }
+        // epilogue: the network behaves, everybody alive keeps ticking
+        if !matches!(self.cfg.family.as_str(), "idle" | "events" | "timesync") {
+            self.emit("mark epilogue".to_owned());
+            self.cfg.p_drop = 0;
+            self.cfg.p_dup = 0;
+            self.cfg.p_skip = 0;
+            self.cfg.p_deliver = 100;
+            self.cfg.outages.clear();
+            let end2 = self.w.now_us + 100 * (1_000_000 / self.cfg.fps as u64);
+            while self.w.now_us < end2 {
+                let step = self.cfg.step_us.min(8000);
+                self.emit(format!("clock +{step}"));
+                // `flushall` instead of per-packet ops: the epilogue stays a clean network even
+                // when the scenario is replayed on code that sends a different number of packets
+                self.emit("flushall".to_owned());
+                for i in 0..self.peers.len() {
+                    if !self.peers[i].alive || self.peers[i].next_tick > self.w.now_us {
+                        continue;
+                    }
+                    let sid = self.peers[i].sid;
+                    if self.peers[i].is_spec {
+                        self.emit(format!("adv {sid}"));
+                    } else {
+                        let n = self.peers[i].handles.len();
+                        let vals: Vec<String> = (0..n).map(|k| self.input_value(i, k).to_string()).collect();
+                        self.emit(format!("tick {} {}", sid, vals.join(",")));
+                    }
+                    self.peers[i].ticks += 1;
+                    self.peers[i].next_tick = self.w.now_us + self.peers[i].period_us;
+                    if self.peers[i].drain_events {
+                        self.emit(format!("events {sid}"));
+                    }
                 }
             }
         }
